@@ -26,6 +26,7 @@ RULE = ("cases = ordered pairs (a, b) of names compared in both modes (sorting /
 TRUSTED = ["CPython `re`, `int()` and `str` comparison on ASCII input (exercised, not verified)",
            "Python's list.sort with a comparator that is a total preorder on the list returns a stably sorted list (used for 'latest')"]
 ASSUMPTIONS = ["names and expressions are ASCII; names are over [A-Za-z0-9._+-] (no blanks, no newline)",
+               "blanks in expressions are space, \\t, \\n, \\v, \\f, \\r (Python's \\s also matches the control characters 0x1c-0x1f, which are not generated)",
                "a name that makes _splitVersion raise AttributeError (it starts with '-' or '+') is a name the comparator does not accept",
                "components have fewer than 4300 digits (CPython's int/str conversion limit)",
                "VersionCompare.stdCompare is entered with suffix=True only (compare/__call__ and its own recursive calls)"]
@@ -494,6 +495,17 @@ def eval_small(ctx, cases):
             ctx.hist("match/outcome=" + io_["r"])
             ctx.hist("match/terms=%d" % len(c["terms"]))
             ctx.hist("match/pure-or-chain" if c.get("pure") else "match/other")
+            ex_ = c["expr"]
+            for key, hit in (("match/text:word-or", " or " in ex_), ("match/text:and", "&&" in ex_ or " and " in ex_),
+                             ("match/text:no-blank-after-operator", bool(L.re.search(r"[<>=][^\s<>=]", ex_))),
+                             ("match/text:no-blank-around-||", bool(L.re.search(r"\S\|\||\|\|\S", ex_))),
+                             ("match/text:bare-term", any(("%s %s" % (o, v)) not in L.re.sub(r"\s+", " ", L.re.sub(r"([<>=]+)\s*", r"\1 ", ex_))
+                                                          for o, v in c["terms"] if o == "==")),
+                             ("match/text:tab-or-double-blank", "\t" in ex_ or "  " in ex_),
+                             ("match/text:and-after-or", bool(L.re.search(r"(\|\|| or ).*(&&| and )", ex_))),
+                             ("match/text:or-after-and", bool(L.re.search(r"(&&| and ).*(\|\|| or )", ex_)))):
+                if hit:
+                    ctx.hist(key)
             if io_["r"] != mo:
                 ctx.disagree("version_match", inp, io_["r"], mo, note="tokens (model): %s" % ans.get("tokens"))
             ex = expected_match(c, io_)
@@ -809,6 +821,8 @@ def run(ctx, sz=None):
     if not ctx.out_of_time():
         for k in ("stack/branch=cache", "stack/branch=db", "stack/ties-inside-a-stack", "stack/string-order-differs-from-numeric-order", "stack/minver:some",
                   "stack/minver:none", "stack/oracle:latest_of_matches", "stack/oracle:match_iff_relation", "arbitrary/strict:U", "arbitrary/sort:<", "arbitrary/sort:M", "match/outcome=match", "match/outcome=nomatch", "legal/outcome=relational", "legal/outcome=plain", "legal/outcome=bad",
+                  "match/text:word-or", "match/text:and", "match/text:no-blank-after-operator", "match/text:no-blank-around-||", "match/text:bare-term",
+                  "match/text:tab-or-double-blank", "match/text:and-after-or", "match/text:or-after-and",
                   "match/oracle:match_iff_relation", "wide/sort:=", "g1404/sort:<"):
             if not h.get(k):
                 raise common.InfraError("degenerate distribution: nothing counted under %r" % k)
